@@ -1,8 +1,843 @@
-// C16 harness part (stub until built)
-use crate::verif::vx::report::Report;
+// C16: only configured or dynamically permitted neighbours get a session, set
+// up exactly as configured; both ends negotiate mirror-image parameters.
+//
+// Part (i): explicit-state BFS over connect / disconnect / enable / disable /
+//           delete histories against the real accept_connection + session
+//           tasks over loopback TCP (source addresses 127.x.y.z).
+// Part (ii): bounded-exhaustive enumeration of capability-list pairs through
+//           PeerCodec::negotiate (both directions, each side seeing the other's
+//           list through encode -> decode), PeerFsm's effective add-path
+//           send-max and PeerSession::negotiate_gr / negotiate_llgr.
 
-pub(crate) fn run(_replay: Option<&str>) -> Report {
+use super::super::*;
+use super::common::*;
+use crate::verif::vx::bfs::{self, BfsCfg, Model};
+use crate::verif::vx::enumr;
+use crate::verif::vx::report::{Report, Violation};
+use std::collections::{BTreeMap, BTreeSet};
+use std::net::{IpAddr, Ipv4Addr};
+
+const A_STATIC: IpAddr = IpAddr::V4(Ipv4Addr::new(127, 0, 1, 1));
+const A_INPFX: IpAddr = IpAddr::V4(Ipv4Addr::new(127, 0, 2, 5));
+const A_OUT: IpAddr = IpAddr::V4(Ipv4Addr::new(127, 0, 3, 1));
+const ADDRS: [IpAddr; 3] = [A_STATIC, A_INPFX, A_OUT];
+const ANAME: [&str; 3] = ["static", "in-prefix", "other"];
+
+#[derive(Clone, Debug)]
+enum Op {
+    Connect(crate::fsm::Role, usize),
+    Disconnect(crate::fsm::Role, usize),
+    Enable,
+    Disable,
+    Delete,
+}
+
+fn rname(r: crate::fsm::Role) -> &'static str {
+    match r {
+        crate::fsm::Role::Active => "active",
+        crate::fsm::Role::Passive => "passive",
+    }
+}
+
+fn op_name(o: &Op) -> String {
+    match o {
+        Op::Connect(r, a) => format!("connect({},{})", rname(*r), ANAME[*a]),
+        Op::Disconnect(r, a) => format!("disconnect({},{})", rname(*r), ANAME[*a]),
+        Op::Enable => "enable(static)".into(),
+        Op::Disable => "disable(static)".into(),
+        Op::Delete => "delete(static)".into(),
+    }
+}
+
+#[derive(Clone)]
+struct GroupCfg {
+    name: &'static str,
+    prefix: &'static str,
+    as_number: u32,
+    local_asn: u32,
+    rs_client: bool,
+    rr_client: bool,
+    holdtime: Option<u64>,
+    gr: bool,
+}
+
+#[derive(Clone)]
+struct Cfg {
+    name: &'static str,
+    static_admin_down: bool,
+    static_remote_as: u32,
+    static_hold: u64,
+    static_rs: bool,
+    static_prefix_limit: Option<u32>,
+    groups: Vec<GroupCfg>,
+    confed: Option<(u32, Vec<u32>)>,
+}
+
+struct Expect {
+    roles: Vec<table::PeerRole>,
+    holds: Vec<u64>,
+    open_as: Vec<u32>,
+    gr: Vec<bool>,
+    limits: Vec<usize>,
+}
+
+struct Live {
+    stream: Option<TcpStream>,
+    join: Option<tokio::task::JoinHandle<()>>,
+}
+
+pub(crate) struct Sys {
+    rt: tokio::runtime::Runtime,
+    d: Daemon,
+    live: BTreeMap<(u8, usize), Live>,
+    // reference
+    peers: BTreeMap<usize, (bool /*admin_down*/, bool /*dynamic*/)>,
+    broken: BTreeSet<String>,
+    dead: bool,
+}
+
+pub(crate) struct AcceptModel {
+    cfg: Cfg,
+    ops: Vec<Op>,
+}
+
+fn rk(r: crate::fsm::Role) -> u8 {
+    match r {
+        crate::fsm::Role::Active => 0,
+        crate::fsm::Role::Passive => 1,
+    }
+}
+
+impl AcceptModel {
+    fn groups_matching(&self, a: usize) -> Vec<&GroupCfg> {
+        self.cfg
+            .groups
+            .iter()
+            .filter(|g| {
+                let net: packet::IpNet = g.prefix.parse().unwrap();
+                net.contains(&ADDRS[a])
+            })
+            .collect()
+    }
+
+    fn role_for(&self, remote_as: u32, local_asn: u32, rs: bool, rr: bool) -> table::PeerRole {
+        let local = if local_asn != 0 { local_asn } else { 65000 };
+        if rs {
+            table::PeerRole::RsClient
+        } else if remote_as == local {
+            if rr {
+                table::PeerRole::IbgpRrClient
+            } else {
+                table::PeerRole::Ibgp
+            }
+        } else if self.cfg.confed.as_ref().is_some_and(|(_, m)| m.contains(&remote_as)) {
+            table::PeerRole::ConfedEbgp
+        } else {
+            table::PeerRole::Ebgp
+        }
+    }
+
+    /// What the statement allows for a session of address `a` (several answers
+    /// when overlapping dynamic prefixes both match: any matching group is fine).
+    fn expect(&self, a: usize, dynamic: bool) -> Expect {
+        let mut e = Expect { roles: vec![], holds: vec![], open_as: vec![], gr: vec![], limits: vec![] };
+        let open_as = |remote_as: u32| -> u32 {
+            match &self.cfg.confed {
+                // RFC 5065: peers outside the confederation see the confederation id
+                Some((id, members)) if !members.contains(&remote_as) => *id,
+                _ => 65000,
+            }
+        };
+        if !dynamic {
+            e.roles.push(self.role_for(self.cfg.static_remote_as, 0, self.cfg.static_rs, false));
+            e.holds.push(self.cfg.static_hold);
+            e.open_as.push(open_as(self.cfg.static_remote_as));
+            e.gr.push(false);
+            e.limits.push(self.cfg.static_prefix_limit.is_some() as usize);
+        } else {
+            for g in self.groups_matching(a) {
+                e.roles.push(self.role_for(g.as_number, g.local_asn, g.rs_client, g.rr_client));
+                e.holds.push(g.holdtime.unwrap_or(PeerParams::DEFAULT_HOLD_TIME));
+                e.open_as.push(if g.local_asn != 0 { g.local_asn } else { open_as(g.as_number) });
+                e.gr.push(g.gr);
+                e.limits.push(0);
+            }
+        }
+        e
+    }
+}
+
+impl Model for AcceptModel {
+    type Sys = Sys;
+    fn name(&self) -> String {
+        format!("c16-{}", self.cfg.name)
+    }
+    fn n_ops(&self) -> usize {
+        self.ops.len()
+    }
+    fn op_name(&self, op: usize) -> String {
+        op_name(&self.ops[op])
+    }
+
+    fn init(&self) -> Sys {
+        let rt = runtime();
+        let d = Daemon::new(1);
+        let cfg = self.cfg.clone();
+        rt.block_on(async {
+            let mut g = d.global.write().await;
+            if let Some((id, members)) = &cfg.confed {
+                g.confederation = Some(ConfederationConfig { id: *id, members: members.iter().copied().collect() });
+            }
+            let mut p = default_peer_params(A_STATIC);
+            p.passive = true;
+            p.expected_remote_asn = cfg.static_remote_as;
+            p.holdtime = cfg.static_hold;
+            p.rs_client = cfg.static_rs;
+            p.admin_down = cfg.static_admin_down;
+            p.families = [(Family::IPV4, 0u8), (Family::IPV6, 0u8)].into_iter().collect();
+            if let Some(l) = cfg.static_prefix_limit {
+                p.prefix_limits.insert(Family::IPV4, l);
+            }
+            g.add_peer(p, None).expect("add_peer");
+            for gc in &cfg.groups {
+                g.peer_group.insert(
+                    gc.name.to_string(),
+                    PeerGroup {
+                        as_number: gc.as_number,
+                        dynamic_peers: vec![DynamicPeer { prefix: gc.prefix.parse().unwrap() }],
+                        route_server_client: gc.rs_client,
+                        holdtime: gc.holdtime,
+                        local_asn: gc.local_asn,
+                        passive: true,
+                        route_reflector: RouteReflectorConfig { route_reflector_client: gc.rr_client, route_reflector_cluster_id: None },
+                        multihop_ttl: None,
+                        ttl_security: None,
+                        auth_password: None,
+                        connect_retry_time: None,
+                        families: [(Family::IPV4, 0u8)].into_iter().collect(),
+                        send_max: FnvHashMap::default(),
+                        graceful_restart: if gc.gr { Some(peer::GrPeerConfig { restart_time: 90, notification_enabled: false, families: vec![Family::IPV4] }) } else { None },
+                        llgr: None,
+                    },
+                );
+            }
+        });
+        let mut peers = BTreeMap::new();
+        peers.insert(0usize, (self.cfg.static_admin_down, false));
+        Sys { rt, d, live: BTreeMap::new(), peers, broken: BTreeSet::new(), dead: false }
+    }
+
+    fn step(&self, sys: &mut Sys, op: usize, out: &mut Vec<(String, String)>) -> bool {
+        if sys.dead {
+            return false;
+        }
+        let o = &self.ops[op];
+        let mut cur: Vec<(String, String)> = Vec::new();
+        match o {
+            Op::Connect(role, a) => {
+                let key = (rk(*role), *a);
+                if sys.live.contains_key(&key) && !sys.peers.contains_key(a) {
+                    return false;
+                }
+                // reference verdict
+                let (want, dynamic) = match sys.peers.get(a) {
+                    Some((admin_down, dynamic)) => (!*admin_down && !sys.live.contains_key(&key), *dynamic),
+                    None => (!self.groups_matching(*a).is_empty(), true),
+                };
+                let d = &sys.d;
+                let role_c = *role;
+                let addr = ADDRS[*a];
+                let res = sys.rt.block_on(async move {
+                    // same socket set-up as common::connect, but the session is inspected before it is spawned
+                    let listener = tokio::net::TcpListener::bind("127.0.0.1:0").await.map_err(|e| e.to_string())?;
+                    let laddr = listener.local_addr().map_err(|e| e.to_string())?;
+                    let sock = tokio::net::TcpSocket::new_v4().map_err(|e| e.to_string())?;
+                    sock.bind(SocketAddr::new(addr, 0)).map_err(|e| format!("bind {addr}: {e}"))?;
+                    let (client, server) = tokio::join!(sock.connect(laddr), listener.accept());
+                    let mut client = client.map_err(|e| e.to_string())?;
+                    let (server, _) = server.map_err(|e| e.to_string())?;
+                    let session = accept_connection(&d.global, &d.tables, server, role_c).await;
+                    match session {
+                        None => {
+                            // nothing may have been written to the socket before it was dropped
+                            use tokio::io::AsyncReadExt;
+                            let mut buf = [0u8; 64];
+                            let n = match tokio::time::timeout(WAIT, client.read(&mut buf)).await {
+                                Ok(Ok(n)) => n,
+                                Ok(Err(_)) => 0,
+                                Err(_) => return Err("refused connection was not closed".to_string()),
+                            };
+                            Ok::<_, String>((None, n, None))
+                        }
+                        Some(session) => {
+                            let facts = (session.export_ctx.role, session.prefix_counters.len(), session.export_ctx.local_asn);
+                            let global = d.global.clone();
+                            let active_tx = d.active_tx.clone();
+                            let join = tokio::spawn(async move { session.run(global, active_tx).await });
+                            // the daemon's OPEN as seen on the wire
+                            let mut conn = Conn { stream: Some(client), rx: bytes::BytesMut::new(), codec: bgp::PeerCodec::new(), join: Some(join), counter_rx: Default::default(), daemon_open: None, from: addr };
+                            let open = match conn.read_msg().await? {
+                                Some(bgp::ParsedMessage::Open(o)) => Some(o),
+                                _ => None,
+                            };
+                            Ok((Some((conn, facts)), 0, open))
+                        }
+                    }
+                });
+                let (got, bytes_before_close, open) = match res {
+                    Ok(x) => x,
+                    Err(e) => {
+                        machinery(format!("connect: {e}"));
+                        sys.dead = true;
+                        return false;
+                    }
+                };
+                if got.is_some() != want {
+                    cur.push((
+                        format!("C16/admission/{}/{}", if want { "refused-but-permitted" } else { "accepted-but-not-permitted" }, ANAME[*a]),
+                        format!("{}: accept_connection returned {} (peers {:?}, live {:?})", op_name(o), if got.is_some() { "a session" } else { "None" }, sys.peers, sys.live.keys().collect::<Vec<_>>()),
+                    ));
+                }
+                if got.is_none() && bytes_before_close > 0 {
+                    cur.push(("C16/bytes-written-before-refusal".into(), format!("{}: {} bytes reached the peer although the connection was refused", op_name(o), bytes_before_close)));
+                }
+                if let Some((conn, (role_got, n_limits, _local_asn))) = got {
+                    if want {
+                        let e = self.expect(*a, dynamic);
+                        if !e.roles.contains(&role_got) {
+                            cur.push((format!("C16/session-role/{}", ANAME[*a]), format!("{}: session role {:?}, configuration implies one of {:?}", op_name(o), role_got, e.roles)));
+                        }
+                        if !e.limits.contains(&n_limits) {
+                            cur.push((format!("C16/session-prefix-limits/{}", ANAME[*a]), format!("{}: {} prefix-limit counters, configuration implies {:?}", op_name(o), n_limits, e.limits)));
+                        }
+                        match &open {
+                            None => cur.push(("C16/no-open-sent".into(), format!("{}: the session did not send an OPEN", op_name(o)))),
+                            Some(op_) => {
+                                if !e.holds.contains(&(op_.holdtime.seconds() as u64)) {
+                                    cur.push((format!("C16/session-holdtime/{}", ANAME[*a]), format!("{}: OPEN hold time {}, configuration implies one of {:?}", op_name(o), op_.holdtime.seconds(), e.holds)));
+                                }
+                                if !e.open_as.contains(&op_.as_number) {
+                                    cur.push((format!("C16/session-local-as/{}", ANAME[*a]), format!("{}: OPEN carries AS {}, configuration implies one of {:?}", op_name(o), op_.as_number, e.open_as)));
+                                }
+                                let has_gr = op_.capability.iter().any(|c| matches!(c, packet::Capability::GracefulRestart { .. }));
+                                if !e.gr.contains(&has_gr) {
+                                    cur.push((format!("C16/session-capabilities/gr/{}", ANAME[*a]), format!("{}: OPEN advertises GR = {}, configuration implies {:?}", op_name(o), has_gr, e.gr)));
+                                }
+                                let want_v6 = !dynamic;
+                                let has_v6 = op_.capability.iter().any(|c| matches!(c, packet::Capability::MultiProtocol(f) if *f == Family::IPV6));
+                                let has_v4 = op_.capability.iter().any(|c| matches!(c, packet::Capability::MultiProtocol(f) if *f == Family::IPV4));
+                                if !has_v4 || has_v6 != want_v6 {
+                                    cur.push((format!("C16/session-capabilities/families/{}", ANAME[*a]), format!("{}: OPEN advertises v4={} v6={}, configured families imply v4=true v6={}", op_name(o), has_v4, has_v6, want_v6)));
+                                }
+                            }
+                        }
+                    }
+                    let Conn { stream, join, .. } = conn;
+                    if let Some(old) = sys.live.insert(key, Live { stream, join }) {
+                        // the reference said "refuse" but the daemon accepted a second connection of the
+                        // same direction: keep the system consistent by closing the older one
+                        drop(old);
+                    }
+                    sys.peers.entry(*a).or_insert((false, true));
+                }
+            }
+            Op::Disconnect(role, a) => {
+                let key = (rk(*role), *a);
+                let Some(mut l) = sys.live.remove(&key) else { return false };
+                sys.rt.block_on(async {
+                    l.stream = None;
+                    if let Some(j) = l.join.take() {
+                        if tokio::time::timeout(WAIT, j).await.is_err() {
+                            machinery("session task did not end after disconnect".into());
+                        }
+                    }
+                });
+                let still = sys.live.keys().any(|(_, aa)| aa == a);
+                if !still && sys.peers.get(a).is_some_and(|(_, dynamic)| *dynamic) {
+                    sys.peers.remove(a);
+                }
+            }
+            Op::Enable | Op::Disable | Op::Delete => {
+                if !sys.peers.get(&0).is_some_and(|(_, dynamic)| !*dynamic) {
+                    return false; // the configured neighbour is gone (a dynamic one may have taken its address)
+                }
+                let admin_down = sys.peers[&0].0;
+                match o {
+                    Op::Enable if !admin_down => return false,
+                    Op::Disable if admin_down => return false,
+                    _ => {}
+                }
+                let d = &sys.d;
+                let which = o.clone();
+                sys.rt.block_on(async {
+                    let mut g = d.global.write().await;
+                    match which {
+                        Op::Enable => {
+                            if let Some(p) = g.peers.get_mut(&A_STATIC) {
+                                p.admin_down = false;
+                            }
+                        }
+                        Op::Disable => {
+                            if let Some(p) = g.peers.get_mut(&A_STATIC) {
+                                if !p.admin_down {
+                                    p.admin_down = true;
+                                    p.context.lock().unwrap().force_down(CloseReason::AdminShutdown, true);
+                                }
+                            }
+                        }
+                        _ => {
+                            if let Some(p) = g.peers.remove(&A_STATIC) {
+                                p.context.lock().unwrap().force_down(
+                                    CloseReason::SendMessage(bgp::Message::Notification(rustybgp_packet::Notification::CeasePeerDeconfigured)),
+                                    true,
+                                );
+                            }
+                        }
+                    }
+                });
+                match o {
+                    Op::Enable => {
+                        sys.peers.insert(0, (false, false));
+                    }
+                    Op::Disable | Op::Delete => {
+                        // live sessions of the static peer are shut down
+                        let keys: Vec<(u8, usize)> = sys.live.keys().filter(|(_, a)| *a == 0).copied().collect();
+                        for k in keys {
+                            let mut l = sys.live.remove(&k).unwrap();
+                            sys.rt.block_on(async {
+                                if let Some(j) = l.join.take() {
+                                    if tokio::time::timeout(WAIT, j).await.is_err() {
+                                        machinery("session task did not end after disable/delete".into());
+                                    }
+                                }
+                                l.stream = None;
+                            });
+                        }
+                        if matches!(o, Op::Disable) {
+                            sys.peers.insert(0, (true, false));
+                        } else {
+                            sys.peers.remove(&0);
+                        }
+                    }
+                    _ => {}
+                }
+            }
+        }
+        if take_machinery().is_some() {
+            sys.dead = true;
+            return false;
+        }
+        // ---- state invariants
+        let (keys, slots): (BTreeSet<IpAddr>, BTreeMap<IpAddr, (bool, bool)>) = sys.rt.block_on(async {
+            let g = sys.d.global.read().await;
+            let keys = g.peers.keys().copied().collect();
+            let slots = g
+                .peers
+                .iter()
+                .map(|(a, p)| {
+                    let ctx = p.context.lock().unwrap();
+                    let arb = ctx.conn_arbiter.lock().unwrap();
+                    (*a, (arb.active_close_tx.is_some(), arb.passive_close_tx.is_some()))
+                })
+                .collect();
+            (keys, slots)
+        });
+        let want_keys: BTreeSet<IpAddr> = sys.peers.keys().map(|a| ADDRS[*a]).collect();
+        if keys != want_keys {
+            let class = if keys.len() > want_keys.len() { "leftover-neighbour-state" } else { "neighbour-state-missing" };
+            cur.push((format!("C16/peer-table/{class}"), format!("{}: Global.peers = {:?}, expected {:?}", op_name(o), keys, want_keys)));
+        }
+        for (a, (act, pas)) in &slots {
+            let ai = ADDRS.iter().position(|x| x == a).unwrap_or(9);
+            let want = (sys.live.contains_key(&(0, ai)), sys.live.contains_key(&(1, ai)));
+            if (*act, *pas) != want {
+                cur.push(("C16/connection-slots".into(), format!("{}: close-channel slots of {} are {:?}, live connections {:?}", op_name(o), a, (act, pas), want)));
+            }
+        }
+        let mut now = BTreeSet::new();
+        for (sig, what) in cur {
+            let clause = sig.split('/').nth(1).unwrap_or("").to_string();
+            if !sys.broken.contains(&clause) && !now.contains(&clause) {
+                out.push((sig, what));
+            }
+            now.insert(clause);
+        }
+        sys.broken = now;
+        true
+    }
+
+    fn fingerprint(&self, sys: &Sys) -> Vec<u8> {
+        format!("{:?}|{:?}|{:?}|{}", sys.peers, sys.live.keys().collect::<Vec<_>>(), sys.broken, sys.dead).into_bytes()
+    }
+
+    fn observe(&self, sys: &Sys) -> u64 {
+        sys.peers.len() as u64 * 16 + sys.live.len() as u64
+    }
+
+    fn panic_sig(&self, msg: &str) -> Option<(String, String)> {
+        if msg.contains("/verif/") {
+            machinery(format!("harness panic: {msg}"));
+            None
+        } else {
+            Some((format!("C16/panic/{}", bfs::panic_loc(msg)), format!("the daemon panicked: {msg}")))
+        }
+    }
+}
+
+fn accept_models() -> Vec<AcceptModel> {
+    let ops = || {
+        let mut v = Vec::new();
+        for r in [crate::fsm::Role::Passive, crate::fsm::Role::Active] {
+            for a in 0..3 {
+                v.push(Op::Connect(r, a));
+            }
+        }
+        for r in [crate::fsm::Role::Passive, crate::fsm::Role::Active] {
+            for a in 0..3 {
+                v.push(Op::Disconnect(r, a));
+            }
+        }
+        v.extend([Op::Disable, Op::Enable, Op::Delete]);
+        v
+    };
+    let g = |name: &'static str, prefix: &'static str, as_number: u32, local_asn: u32, rs: bool, rr: bool, hold: Option<u64>, gr: bool| GroupCfg { name, prefix, as_number, local_asn, rs_client: rs, rr_client: rr, holdtime: hold, gr };
+    vec![
+        AcceptModel {
+            cfg: Cfg { name: "static-only", static_admin_down: false, static_remote_as: 65001, static_hold: 30, static_rs: false, static_prefix_limit: Some(5), groups: vec![], confed: None },
+            ops: ops(),
+        },
+        AcceptModel {
+            cfg: Cfg {
+                name: "admin-down+rs-group",
+                static_admin_down: true,
+                static_remote_as: 65001,
+                static_hold: 30,
+                static_rs: true,
+                static_prefix_limit: None,
+                groups: vec![g("g1", "127.0.2.0/24", 65002, 0, true, false, Some(45), true)],
+                confed: None,
+            },
+            ops: ops(),
+        },
+        AcceptModel {
+            cfg: Cfg {
+                name: "overlap+rr+confed",
+                static_admin_down: false,
+                static_remote_as: 65003,
+                static_hold: 90,
+                static_rs: false,
+                static_prefix_limit: None,
+                groups: vec![g("g1", "127.0.2.0/24", 65000, 65000, false, true, None, false), g("g2", "127.0.0.0/8", 65009, 0, false, false, Some(60), false)],
+                confed: Some((64999, vec![65003])),
+            },
+            ops: ops(),
+        },
+    ]
+}
+
+// ---------------------------------------------------------------------------
+// Part (ii): capability pairs
+
+#[derive(Clone, Debug)]
+struct CapSide {
+    /// per family: None = absent, Some(None) = MP only, Some(Some(mode)) = MP + add-path mode
+    fam: [Option<Option<u8>>; 2],
+    /// a second, conflicting add-path entry for family 0 (duplicate handling)
+    dup: Option<u8>,
+    as4: bool,
+    extmsg: bool,
+    gr: Option<(u8, Vec<usize>)>,
+    llgr: Option<Vec<(usize, u32)>>,
+    unknown: bool,
+}
+
+const CF: [Family; 2] = [Family::IPV4, Family::IPV6];
+
+fn caps_of(s: &CapSide, asn: u32) -> Vec<packet::Capability> {
+    let mut v = Vec::new();
+    let mut ap = Vec::new();
+    for (i, f) in s.fam.iter().enumerate() {
+        if let Some(m) = f {
+            v.push(packet::Capability::MultiProtocol(CF[i]));
+            if let Some(mode) = m {
+                ap.push((CF[i], *mode));
+            }
+        }
+    }
+    if let Some(m) = s.dup {
+        ap.push((CF[0], m));
+    }
+    if !ap.is_empty() {
+        v.push(packet::Capability::AddPath(ap));
+    }
+    if s.as4 {
+        v.push(packet::Capability::FourOctetAsNumber(asn));
+    }
+    if s.extmsg {
+        v.push(packet::Capability::ExtendedMessage);
+    }
+    if let Some((flags, fams)) = &s.gr {
+        v.push(packet::Capability::GracefulRestart { flags: *flags, restart_time: 120, families: fams.iter().map(|i| (CF[*i], 0x80)).collect() });
+    }
+    if let Some(l) = &s.llgr {
+        v.push(packet::Capability::LongLivedGracefulRestart(l.iter().map(|(i, t)| (CF[*i], 0u8, *t)).collect()));
+    }
+    if s.unknown {
+        v.push(packet::Capability::Unknown { code: 200, bin: vec![1, 2, 3] });
+    }
+    v
+}
+
+/// The menu is factorised: `negotiate` never reads GR/LLGR capabilities and
+/// negotiate_gr/negotiate_llgr read nothing else, so codec/FSM lists and GR/LLGR
+/// lists are enumerated as two independent products (complete within each).
+fn sides(thorough: bool) -> Vec<CapSide> {
+    let fam_opts: Vec<Option<Option<u8>>> = if thorough {
+        vec![None, Some(None), Some(Some(0)), Some(Some(1)), Some(Some(2)), Some(Some(3)), Some(Some(4))]
+    } else {
+        vec![None, Some(None), Some(Some(1)), Some(Some(2)), Some(Some(3)), Some(Some(4))]
+    };
+    let mut out = Vec::new();
+    for f0 in &fam_opts {
+        for f1 in [None, Some(None), Some(Some(3u8))] {
+            for dup in [None, Some(1u8), Some(2u8)] {
+                if dup.is_some() && !matches!(f0, Some(Some(_))) {
+                    continue;
+                }
+                for (as4, extmsg) in [(true, true), (true, false), (false, true), (false, false)] {
+                    for unknown in [false, true] {
+                        // one GR capability rides along in the "unknown" variants to show it does not disturb the rest
+                        let gr = if unknown { Some((0x4u8, vec![0usize])) } else { None };
+                        out.push(CapSide { fam: [f0.clone(), f1.clone()], dup, as4, extmsg, gr, llgr: None, unknown });
+                    }
+                }
+            }
+        }
+    }
+    out
+}
+
+fn gr_sides(thorough: bool) -> Vec<CapSide> {
+    let grs: Vec<Option<(u8, Vec<usize>)>> = vec![None, Some((0, vec![0])), Some((0x4, vec![0, 1])), Some((0x8, vec![])), Some((0xc, vec![1]))];
+    let llgrs: Vec<Option<Vec<(usize, u32)>>> = if thorough { vec![None, Some(vec![(0, 100)]), Some(vec![(0, 0), (1, 50)]), Some(vec![(1, 0)])] } else { vec![None, Some(vec![(0, 100)]), Some(vec![(0, 0), (1, 50)])] };
+    let mut out = Vec::new();
+    for gr in &grs {
+        for llgr in &llgrs {
+            out.push(CapSide { fam: [Some(None), Some(None)], dup: None, as4: true, extmsg: true, gr: gr.clone(), llgr: llgr.clone(), unknown: false });
+        }
+    }
+    out
+}
+
+fn through_wire(caps: &[packet::Capability], asn: u32) -> Result<Vec<packet::Capability>, String> {
+    let msg = bgp::Message::Open(bgp::Open { as_number: asn, holdtime: HoldTime::new(90).unwrap(), router_id: 0x0a000001, capability: caps.to_vec() });
+    let mut buf = bytes::BytesMut::new();
+    bgp::PeerCodec::new().encode_to(&msg, &mut buf).map_err(|e| format!("encode: {e:?}"))?;
+    match bgp::PeerCodec::new().try_parse(&mut buf) {
+        Ok(Some(bgp::ParsedMessage::Open(o))) => Ok(o.capability),
+        Ok(_) => Err("not an OPEN after decode".into()),
+        Err(e) => Err(format!("decode: {e:?}")),
+    }
+}
+
+fn fsm_effective_max(local: &[packet::Capability], remote: &[packet::Capability]) -> FnvHashMap<Family, usize> {
+    let send_max: FnvHashMap<Family, usize> = CF.iter().map(|f| (*f, 2usize)).collect();
+    let mut fsm = crate::fsm::PeerFsm::new(10, 65000, local.to_vec(), 90, 0, send_max);
+    let r = crate::fsm::Role::Active;
+    fsm.process(r, crate::fsm::Input::Connected(false));
+    fsm.process(r, crate::fsm::Input::MessageReceived(bgp::Message::Open(bgp::Open { as_number: 65001, holdtime: HoldTime::new(90).unwrap(), router_id: 20, capability: remote.to_vec() })));
+    for o in fsm.process(r, crate::fsm::Input::MessageReceived(bgp::Message::Keepalive)) {
+        if let crate::fsm::PeerFsmOutput::Connection(_, crate::fsm::Output::SessionEstablished { effective_max, .. }) = o {
+            return effective_max;
+        }
+    }
+    FnvHashMap::default()
+}
+
+fn gr_sets(local: &[packet::Capability], remote: &[packet::Capability], rt: &tokio::runtime::Runtime) -> (BTreeSet<u32>, BTreeSet<u32>, bool) {
+    let fk = |f: &Family| ((f.afi() as u32) << 8) | f.safi() as u32;
+    rt.block_on(async {
+        let ctx = Arc::new(std::sync::Mutex::new(PeerContext {
+            conn_arbiter: Arc::new(std::sync::Mutex::new(ConnArbiter::new(crate::fsm::PeerFsm::new(10, 65000, vec![], 90, 0, FnvHashMap::default())))),
+            active_connect_cancel_tx: None,
+            active_connect_join_handle: None,
+            gr_state: crate::gr::GrState::new(),
+            gr_restart_timer: None,
+            llgr_family_timers: FnvHashMap::default(),
+            rtc_state: crate::rtc::RtcState::new(),
+            rtc_eor_timer: None,
+        }));
+        let mut s = PeerSession::new_for_test(A_STATIC, ctx, make_tables(1));
+        s.local_cap = local.to_vec();
+        let gr = s.negotiate_gr(remote);
+        let llgr = s.negotiate_llgr(remote);
+        (
+            gr.as_ref().map(|g| g.families.iter().map(fk).collect()).unwrap_or_default(),
+            llgr.map(|l| l.families.iter().map(|(f, _)| fk(f)).collect()).unwrap_or_default(),
+            gr.map(|g| g.notification_enabled).unwrap_or(false),
+        )
+    })
+}
+
+fn check_pair(l: &CapSide, r: &CapSide, rt: &tokio::runtime::Runtime, gr_part: bool) -> Vec<(String, String)> {
+    let mut out = Vec::new();
+    let lc = caps_of(l, 65000);
+    let rc = caps_of(r, 65001);
+    // each side sees the other's list through the wire
+    let (lw, rw) = match (through_wire(&lc, 65000), through_wire(&rc, 65001)) {
+        (Ok(a), Ok(b)) => (a, b),
+        (a, b) => {
+            // an OPEN the codec cannot carry is C04's subject; only mode-4 add-path (invalid) may be rejected here
+            let _ = (a, b);
+            return out;
+        }
+    };
+    let desc = format!("local {:?} / remote {:?}", l, r);
+    if gr_part {
+        // GR / LLGR in force iff both advertised the family
+        let (gl, ll, nl) = gr_sets(&lc, &rw, rt);
+        let (gr_, lr, nr) = gr_sets(&rc, &lw, rt);
+        if gl != gr_ || ll != lr || nl != nr {
+            out.push(("C16/gr-not-mirrored".into(), format!("{desc}: GR {:?}/{:?} LLGR {:?}/{:?} N-bit {nl}/{nr}", gl, gr_, ll, lr)));
+        }
+        let key = |i: &usize| ((CF[*i].afi() as u32) << 8) | CF[*i].safi() as u32;
+        let want_gr: BTreeSet<u32> = match (&l.gr, &r.gr) {
+            (Some((_, a)), Some((_, b))) => a.iter().filter(|x| b.contains(x)).map(key).collect(),
+            _ => BTreeSet::new(),
+        };
+        if gl != want_gr {
+            out.push(("C16/gr-in-force".into(), format!("{desc}: GR families in force {:?}, both advertised {:?}", gl, want_gr)));
+        }
+        // LLGR: in force iff both list the family (a zero stale time from both sides disables it: accepted either way)
+        let want_llgr: BTreeSet<u32> = match (&l.llgr, &r.llgr) {
+            (Some(a), Some(b)) => a.iter().filter(|(x, _)| b.iter().any(|(y, _)| y == x)).map(|(x, _)| key(x)).collect(),
+            _ => BTreeSet::new(),
+        };
+        if !ll.is_subset(&want_llgr) {
+            out.push(("C16/llgr-in-force/spurious".into(), format!("{desc}: LLGR families in force {:?}, both advertised {:?}", ll, want_llgr)));
+        }
+        let want_n = matches!((&l.gr, &r.gr), (Some((a, _)), Some((b, _))) if a & 4 != 0 && b & 4 != 0) && !gl.is_empty();
+        if nl != want_n && !gl.is_empty() {
+            out.push(("C16/gr-nbit-in-force".into(), format!("{desc}: N-bit in force {nl}, both advertised {want_n}")));
+        }
+        return out;
+    }
+    let at_l = bgp::PeerCodec::negotiate(&lc, &rw);
+    let at_r = bgp::PeerCodec::negotiate(&rc, &lw);
+    let fams = |c: &bgp::PeerCodec| -> BTreeSet<u32> { c.families_iter().map(|f| ((f.afi() as u32) << 8) | f.safi() as u32).collect() };
+    if fams(&at_l) != fams(&at_r) {
+        out.push(("C16/negotiate/families-not-mirrored".into(), format!("{desc}: families {:?} vs {:?}", fams(&at_l), fams(&at_r))));
+    }
+    let dup_involved = l.dup.is_some() || r.dup.is_some();
+    for (i, f) in CF.iter().enumerate() {
+        let both = l.fam[i].is_some() && r.fam[i].is_some();
+        if at_l.has_family(*f) != both {
+            out.push((format!("C16/negotiate/family-in-force/{}", if both { "missing" } else { "spurious" }), format!("{desc}: family {i} advertised by both = {both}, negotiated = {}", at_l.has_family(*f))));
+        }
+        if let (Some(a), Some(b)) = (at_l.family_state(*f), at_r.family_state(*f)) {
+            if a.addpath_tx != b.addpath_rx || a.addpath_rx != b.addpath_tx {
+                out.push((
+                    format!("C16/negotiate/addpath-not-mirrored{}", if dup_involved && i == 0 { "/duplicate-entries" } else { "" }),
+                    format!("{desc}: family {i}: local tx={} rx={} / remote tx={} rx={}", a.addpath_tx, a.addpath_rx, b.addpath_tx, b.addpath_rx),
+                ));
+            }
+            if !(dup_involved && i == 0) {
+                let lm = l.fam[i].clone().flatten().unwrap_or(0);
+                let rm = r.fam[i].clone().flatten().unwrap_or(0);
+                // a direction is in force iff the sender advertised send (2) and the receiver receive (1);
+                // mode values above 3 are invalid: accepted either way
+                if lm <= 3 && rm <= 3 {
+                    let want_tx = lm & 2 != 0 && rm & 1 != 0;
+                    if a.addpath_tx != want_tx {
+                        out.push(("C16/negotiate/addpath-direction".into(), format!("{desc}: family {i}: local mode {lm}, remote mode {rm}: send direction in force = {}, expected {want_tx}", a.addpath_tx)));
+                    }
+                }
+            }
+            // the FSM's effective send-max must agree with the codec
+            let em = fsm_effective_max(&lc, &rw);
+            let fsm_tx = em.get(f).copied().unwrap_or(1) > 1;
+            if fsm_tx != a.addpath_tx {
+                out.push((
+                    format!("C16/fsm-vs-codec/addpath-send{}", if dup_involved && i == 0 { "/duplicate-entries" } else { "" }),
+                    format!("{desc}: family {i}: PeerFsm effective send-max > 1 is {fsm_tx}, codec addpath_tx is {}", a.addpath_tx),
+                ));
+            }
+        }
+    }
+    if at_l.extended_length != (l.extmsg && r.extmsg) || at_l.extended_length != at_r.extended_length {
+        out.push(("C16/negotiate/extended-message".into(), format!("{desc}: local {} remote {} expected {}", at_l.extended_length, at_r.extended_length, l.extmsg && r.extmsg)));
+    }
+    if at_l.two_byte_as == (l.as4 && r.as4) || at_l.two_byte_as != at_r.two_byte_as {
+        out.push(("C16/negotiate/four-octet-as".into(), format!("{desc}: local two_byte_as {} remote {}, both advertised AS4 = {}", at_l.two_byte_as, at_r.two_byte_as, l.as4 && r.as4)));
+    }
+    out
+}
+
+pub(crate) fn run(replay: Option<&str>) -> Report {
     let mut rep = Report::new("C16", "hd-c16");
-    rep.machinery_error = Some("harness not built yet".into());
+    let ms = accept_models();
+    if let Some(case) = replay {
+        if let Some(rest) = case.strip_prefix("caps#") {
+            let mut it = rest.split('#');
+            let thorough = it.next() == Some("t");
+            let li: usize = it.next().and_then(|s| s.parse().ok()).unwrap_or(0);
+            let ri: usize = it.next().and_then(|s| s.parse().ok()).unwrap_or(0);
+            let grp = it.next() == Some("gr");
+            let ss = if grp { gr_sides(thorough) } else { sides(thorough) };
+            let rt = runtime();
+            for (sig, what) in check_pair(&ss[li.min(ss.len() - 1)], &ss[ri.min(ss.len() - 1)], &rt, grp) {
+                eprintln!("  {sig}: {what}");
+                rep.violation(Violation { sig, what, case: case.to_string() });
+            }
+            rep.evaluations = 1;
+            return rep;
+        }
+        let Some((name, hist)) = bfs::decode_case(case) else {
+            rep.machinery_error = Some("bad replay case".into());
+            return rep;
+        };
+        let Some(m) = ms.iter().find(|m| m.name() == name) else {
+            rep.machinery_error = Some(format!("unknown model {name}"));
+            return rep;
+        };
+        eprintln!("replay {}", bfs::render(m, &hist));
+        rep.violations_from(bfs::replay(m, &hist, true));
+        rep.evaluations = 1;
+        rep.machinery_error = take_machinery();
+        return rep;
+    }
+    let thorough = rep.thorough();
+    let depth = if thorough { 5 } else { 4 };
+    rep.rule = format!("(i) explicit-state BFS depth {depth} over connect(passive|active, static|in-dynamic-prefix|other address) / disconnect / enable / disable / delete against the real accept_connection + session tasks on loopback (3 configurations: static only with prefix limit; admin-down static + route-server dynamic group with GR and hold time; overlapping dynamic prefixes + RR client group + confederation); admission verdict, no bytes before refusal, role / hold time / local AS / capabilities / limits of the session as seen in its OPEN, Global.peers and connection slots after every step; (ii) all pairs of capability lists from a {} -element menu (per-family absent / MP / add-path modes incl. invalid 4, conflicting duplicate add-path entries, AS4, extended message, GR flag/family lists, LLGR lists, unknown capability) through encode->decode and PeerCodec::negotiate in both directions, PeerFsm effective send-max, PeerSession::negotiate_gr/llgr (codec/FSM lists and GR/LLGR lists as two independent complete products); non-trivial = distinct canonical state / distinct pair", sides(thorough).len() + gr_sides(thorough).len());
+    for m in &ms {
+        let cfg = BfsCfg { max_depth: depth, max_secs: if thorough { 1200 } else { 20 }, ..Default::default() };
+        bfs::bfs(m, &cfg, &mut rep);
+        if let Some(e) = take_machinery() {
+            rep.machinery_error = Some(e);
+            return rep;
+        }
+    }
+    // part (ii)
+    let tflag = if thorough { "t" } else { "q" };
+    let before = rep.evaluations;
+    for grp in [false, true] {
+        let ss = if grp { gr_sides(thorough) } else { sides(thorough) };
+        let n = ss.len() as u64;
+        let total = n * n;
+        enumr::par_range(total, &mut rep, |i, local| {
+            thread_local! { static RT: tokio::runtime::Runtime = runtime(); }
+            let (li, ri) = ((i / n) as usize, (i % n) as usize);
+            let vs = RT.with(|rt| check_pair(&ss[li], &ss[ri], rt, grp));
+            local.evaluations += 1;
+            for (sig, what) in vs {
+                local.violation(Violation { sig, what, case: format!("caps#{tflag}#{li}#{ri}#{}", if grp { "gr" } else { "codec" }) });
+            }
+            if i % 20_011 == 0 {
+                local.samples.push(format!("caps pair: {:?} <-> {:?}", ss[li], ss[ri]));
+            }
+        });
+        rep.notes.push(format!("c16-capability-pairs[{}]: {} lists per side, {} ordered pairs, all evaluated", if grp { "gr/llgr" } else { "codec/fsm" }, n, total));
+    }
+    rep.distinct_nontrivial += rep.evaluations - before;
     rep
 }
